@@ -119,7 +119,7 @@ int write_srec(Memory *memory, FILE *out, int srec_size)
 {
   uint8_t data[LINE_LENGTH];
   uint32_t address = 0;
-  uint32_t n;
+  uint64_t n; // 64 bit so the loop ends when high_address is 0xffffffff
   int len, type;
 
   if (srec_size == SREC_24)
